@@ -22,11 +22,12 @@ LEVEL = "fault_enumeration"
 DESIGN_REF = "DESIGN.md §4 C13"
 RULE = (
     "cases = sequences of schedule / schedule-with-fault(new|start) / unschedule / add_handler_for_watch / "
-    "remove_handler_for_watch / unschedule_all / start / stop over 2 paths x recursive flag x 2 filters (8 watches, equal "
+    "remove_handler_for_watch / unschedule_all / start / stop over 2 paths x recursive flag x 4 filters - none, empty, created, modified - (16 watches, equal "
     "ones on purpose) and 3 handlers; exhaustive part: every sequence of length <= 3 (quick) / 4 (thorough) over 1 path, 2 "
     "handlers with the emitter failure at every position and of both kinds; random part: Hypothesis sequences up to 14 "
-    "calls.  After every call: emitters == model's watches, and a unique marker queued through every live emitter reaches "
-    "exactly the model's handler set.  non-trivial = a failed schedule() followed by a successful one for an equal watch, "
+    "calls.  After every call: emitters == model's watches, and a created and a modified marker queued through every live "
+    "emitter reach exactly the model's handler set if the watch's filter admits them and nobody otherwise; plus the watch "
+    "equality law: ObservedWatch objects are equal, and hash equal, iff (path, recursive flag, filter as a set) agree.  non-trivial = a failed schedule() followed by a successful one for an equal watch, "
     "or >= 2 equal-key schedules, or an unschedule with >= 2 live watches; distinct = the sequence"
 )
 ASSUMPTIONS = [
@@ -38,7 +39,10 @@ ASSUMPTIONS = [
 PATHS = ["/p0", "/p1"]
 
 
-def specs(npaths=2, recursive=(False, True), filters=(None, "created")):
+FILTERS = (None, "empty", "created", "modified")
+
+
+def specs(npaths=2, recursive=(False, True), filters=FILTERS):
     return [(p, r, f) for p in PATHS[:npaths] for r in recursive for f in filters]
 
 
@@ -90,8 +94,16 @@ def run_sequence(seq, nh=3):
         info = {"failed_then_ok": False, "equal_key": False, "unsched_with_2": False}
         failed_keys = set()
 
+        FLT = {None: None, "empty": [], "created": [ev.FileCreatedEvent], "modified": [ev.FileModifiedEvent]}
+        PASSES = {None: {"c", "m"}, "empty": set(), "created": {"c"}, "modified": {"m"}}  # which marker kinds a filter lets through
+
         def flt(f):
-            return None if f is None else [ev.FileCreatedEvent]
+            return FLT[f]
+
+        def fkind(event_filter):
+            if event_filter is None:
+                return None
+            return {frozenset(): "empty", frozenset([ev.FileCreatedEvent]): "created", frozenset([ev.FileModifiedEvent]): "modified"}[frozenset(event_filter)]
 
         def key(si):
             p, r, f = SP[si]
@@ -172,7 +184,7 @@ def run_sequence(seq, nh=3):
 
             def mkey(wt):
                 # the model's own notion of a distinct watch: (path, recursive flag, filter), independent of the library's __eq__
-                return (wt.path, wt.is_recursive, None if wt.event_filter is None else "created")
+                return (wt.path, wt.is_recursive, fkind(wt.event_filter))
 
             em_keys = [mkey(e.watch) for e in ems]
             if len(set(em_keys)) != len(em_keys):
@@ -184,20 +196,27 @@ def run_sequence(seq, nh=3):
                     if not e.is_alive():
                         raise Violation(f"after {desc}: emitter of {e.watch} is not running although the observer runs", "emitter-not-running")
                 n = next(marker)
-                for e in sorted(ems, key=lambda e: repr(e.watch)):
-                    e.queue_event(ev.FileCreatedEvent(f"{e.watch.path}/m{n}_{hash(e.watch) & 0xffff}"))
+                order = sorted(ems, key=lambda e: repr(e.watch))
+                tag = {id(e): j for j, e in enumerate(order)}
+                for e in order:
+                    # one created and one modified marker: the watch's filter decides which of them its handlers see
+                    e.queue_event(ev.FileCreatedEvent(f"{e.watch.path}/c{n}_{tag[id(e)]}"))
+                    e.queue_event(ev.FileModifiedEvent(f"{e.watch.path}/m{n}_{tag[id(e)]}"))
                 tm.sleep(2.0)
                 for e in ems:
-                    name = f"{e.watch.path}/m{n}_{hash(e.watch) & 0xffff}"
-                    got = {h.hid for h in hs if name in h.got}
-                    if got != model[mkey(e.watch)]:
-                        raise Violation(
-                            f"after {desc}: a marker event of watch {e.watch} reached handlers {sorted(got)}, the call history says {sorted(model[mkey(e.watch)])}",
-                            "marker-routing:" + ("extra" if got - model[mkey(e.watch)] else "missing"),
-                        )
-                    cnt = [h.got.count(name) for h in hs if name in h.got]
-                    if any(c != 1 for c in cnt):
-                        raise Violation(f"after {desc}: marker delivered {cnt} times", "marker-duplicate")
+                    for mk in ("c", "m"):
+                        name = f"{e.watch.path}/{mk}{n}_{tag[id(e)]}"
+                        got = {h.hid for h in hs if name in h.got}
+                        want = model[mkey(e.watch)] if mk in PASSES[mkey(e.watch)[2]] else set()
+                        if got != want:
+                            raise Violation(
+                                f"after {desc}: the {'created' if mk == 'c' else 'modified'} marker of watch {e.watch} reached handlers {sorted(got)}, "
+                                f"the call history and the watch's filter say {sorted(want)}",
+                                "marker-routing:" + ("extra" if got - want else "missing"),
+                            )
+                        cnt = [h.got.count(name) for h in hs if name in h.got]
+                        if any(c != 1 for c in cnt):
+                            raise Violation(f"after {desc}: marker delivered {cnt} times", "marker-duplicate")
         if started and not stopped:
             obs.stop()
         if started:
@@ -253,14 +272,48 @@ def sequences(draw):
 NSH = 16
 
 
+def watch_equality_law(st_):
+    """ObservedWatch objects are equal (==, !=, hash, use as dict key) iff path, recursive flag and filter-as-a-set agree."""
+    import pathlib
+
+    from watchdog import events as ev
+    from watchdog.observers.api import ObservedWatch
+
+    A, B, C = ev.FileCreatedEvent, ev.FileModifiedEvent, ev.FileSystemEvent
+    filters = [(None, None), ([], ()), ((), ()), ([A], (A,)), ((A,), (A,)), ([A, A], (A,)), ([B], (B,)), ([A, B], (A, B)), ([B, A], (A, B)), ({A, B}, (A, B)), ([C], (C,))]
+    paths = [("/p0", "/p0"), (pathlib.Path("/p0"), "/p0"), ("/p1", "/p1"), ("/p", "/p")]  # other spellings of one directory are C19's business
+    ws = []
+    for p, pk in paths:
+        for r in (False, True):
+            for f, fk in filters:
+                ws.append((ObservedWatch(p, recursive=r, event_filter=f), (pk, r, None if fk is None else frozenset(fk)), (p, r, f)))
+    for w1, k1, d1 in ws:
+        for w2, k2, d2 in ws:
+            same = k1 == k2
+            nt = (k1[0] == k2[0] and k1[1] == k2[1]) or same
+            if (w1 == w2) != same or (w1 != w2) == same:
+                raise Violation(f"ObservedWatch{d1} == ObservedWatch{d2} is {w1 == w2}, != is {w1 != w2}; (path, recursive, filter) are {'equal' if same else 'different'}", "watch-equality")
+            if same and hash(w1) != hash(w2):
+                raise Violation(f"ObservedWatch{d1} and ObservedWatch{d2} are equal but hash differently", "watch-hash")
+            if ({w1: 1}.get(w2) == 1) != same or (w2 in {w1}) != same:
+                raise Violation(f"ObservedWatch{d1} used as a dict/set key {'does not find' if same else 'finds'} ObservedWatch{d2}", "watch-as-key")
+            st_.case(["law", repr(d1), repr(d2)], nt, ["watch-equality-law", "equal-watches" if same else "distinct-watches"])
+
+
 def shards(tier, seed):
-    return [(k, tier, seed, i) for i in range(NSH) for k in ("exh", "hyp")]
+    return [(k, tier, seed, i) for i in range(NSH) for k in ("exh", "hyp")] + [("law", tier, seed, 0)]
 
 
 def run_shard(spec):
     kind, tier, seed, i = spec
     harness.ensure_lines(())
     st_ = Stats()
+    if kind == "law":
+        try:
+            watch_equality_law(st_)
+        except Violation as v:
+            st_.fail({"kind": "law"}, v.message, v.signature)
+        return st_
     if kind == "exh":
         L = 3 if tier == "quick" else 4
         st_.exhaustive = True
@@ -304,6 +357,9 @@ def run_shard(spec):
 def replay(case):
     harness.ensure_lines(())
     try:
+        if case.get("kind") == "law":
+            watch_equality_law(Stats())
+            return []
         run_sequence(case["seq"], nh=case.get("nh", 3))
     except Violation as v:
         return [runner.Failure(case, v.message, v.signature)]
